@@ -157,7 +157,6 @@ def wtStep (msg : TMsg) (s : List Int × Option Int) : Except Err (ForInStep (Li
 theorem encode_cons (m : Msg) : ∃ s d, encode m = s :: d := by
   cases m <;> simp [encode]
 
-def optInt (r : Option Nat) : Option Int := r.map Int.ofNat
 
 theorem optInt_beq (s : Nat) (r : Option Nat) : (some (s : Int) == optInt r) = decide (some s = r) := by
   cases r with
